@@ -12,6 +12,8 @@ environment, both modes, plus the impossible-policy flag).
 
 FULL STATEMENT: `typeOf_sound` below (a `def … : Prop`, all expressions, both modes).
 
+PROVED (0): `typeOf_sound_strict` — THE FULL STATEMENT WITH `m := .strict`, for every expression all of whose slots have a
+type in the environment (`SlotsLinked`); it is (1) plus `inFragment2_of` (distinct record keys + linked slots ⇒ fragment).
 PROVED (1): `typeOf_sound_partial2` — the statement for STRICT mode and every expression of `Cedar.C03.InFragment2 env`
 (= `InFragmentM .strict env`, Lemmas/TypecheckDefs2.lean), i.e. ALL constructs:
     literals (incl. entity uids), `principal` `action` `resource` `context`, template slots (in an environment linked for
@@ -60,23 +62,6 @@ def SlotsBound (env : RequestEnv) (sl : SlotEnv) : Prop :=
 theorem SlotsBound.slotsMatch {env : RequestEnv} {sl : SlotEnv} (h : SlotsBound env sl) : SlotsMatch env sl := by
   obtain ⟨⟨u, hu, hut⟩, ⟨v, hv, hvt⟩⟩ := h
   exact ⟨fun t ht => ⟨u, hu, hut t ht⟩, fun t ht => ⟨v, hv, hvt t ht⟩⟩
-
--- record literals have distinct keys (Rust's `ExprKind::Record` is a `BTreeMap`)
-mutual
-def RecordKeysDistinct : Expr → Bool
-  | .lit _ | .var _ | .slot _ | .unknown _ _ => true
-  | .ite c t e => RecordKeysDistinct c && RecordKeysDistinct t && RecordKeysDistinct e
-  | .and a b | .or a b | .binaryApp _ a b => RecordKeysDistinct a && RecordKeysDistinct b
-  | .unaryApp _ a | .getAttr a _ | .hasAttr a _ | .like a _ | .is a _ => RecordKeysDistinct a
-  | .call _ args | .set args => RecordKeysDistinctList args
-  | .record kvs => RecordKeysDistinctKVs kvs && decide ((kvs.map (·.1)).Nodup)
-def RecordKeysDistinctList : List Expr → Bool
-  | [] => true
-  | e :: es => RecordKeysDistinct e && RecordKeysDistinctList es
-def RecordKeysDistinctKVs : List (String × Expr) → Bool
-  | [] => true
-  | (_, e) :: es => RecordKeysDistinct e && RecordKeysDistinctKVs es
-end
 
 /-- FULL STATEMENT (every expression the model types, both modes).  If `typeOf e caps = ok (τ, caps')` in the environment
 of a request that — like the store — conforms to the schema (Conformance.lean), the store holds the schema's action
@@ -133,6 +118,17 @@ theorem typeOf_sound_partial2 (s : Schema) (env : RequestEnv) (w : World)
     (h : typeOf .strict s env e caps = .ok (τ, c')) (hc : CapsHold w caps) :
     TySound w e τ c' ∧ (τ = .bool .tt → CapsHold w c') :=
   (sound2 hWF henv e hf caps τ c' h).2 ⟨hreq, hst, hsl, hact⟩ hc
+
+/-- THE FULL STATEMENT IN STRICT MODE: `typeOf_sound` with `m := .strict`, for every expression all of whose slots have a
+type in the environment (`SlotsLinked`; `link_request_env` guarantees it for the environments the typechecker builds). -/
+theorem typeOf_sound_strict (s : Schema) (env : RequestEnv) (w : World)
+    (hWF : SchemaWF2 s) (henv : EnvMatches s env w.q) (hreq : ConformsRequest s w.q) (hst : StoreConforms s w.es)
+    (hact : ActionsPresent s w.es) (hsl : SlotsBound env w.sl)
+    (e : Expr) (caps : Capabilities) (τ : CedarType) (c' : Capabilities) (hk : RecordKeysDistinct e = true)
+    (hlinked : SlotsLinked env e = true)
+    (h : typeOf .strict s env e caps = .ok (τ, c')) (hc : CapsHold w caps) :
+    TySound w e τ c' ∧ (τ = .bool .tt → CapsHold w c') :=
+  typeOf_sound_partial2 s env w hWF henv hreq hst hact hsl.slotsMatch e (inFragment2_of env e hk hlinked) caps τ c' h hc
 
 /-- the static types of the second fragment mention single entity types only, and never `Never` / `AnyEntity` -/
 theorem typeOf_types_wellformed2 (s : Schema) (env : RequestEnv) (q : Request)
